@@ -580,7 +580,11 @@ def account(ctx, job, res, count=True):
 
 CLAUSES = ["C10.aligned", "C10.external_zero", "C10.table_order", "C10.cell_pressure", "C10.keyed_forces",
            "C10.keyed_pressures", "C10.pure", "C10.raised"]
-GUARDS = ["StaleExcluded", "PressuresOverwritten", "FixStress", "PureResults", "KeyedStores"]
+# vacuity guards whose counterexamples are replayed. StaleExcluded, PressuresOverwritten and raw KeyedStores were
+# reachable before the repairs 02a1c4b / f3930f6; with ExcludedReset = PressuresKeyed = TRUE they are unreachable (a guard
+# run would have to exhaust the bounded space to say so), so they are no longer run; the exhaustive jobs check the
+# corresponding invariants (AlignedX, KeyedStoresX, PureResultsX) directly.
+GUARDS = ["FixStress", "PureResults"]
 
 
 def _phase(name, t=[None]):
@@ -642,7 +646,7 @@ def run(ctx):
         for h in histories(res):
             cases.append(("counterexample:" + g, 2, h))
     ctx.extra["model_counterexamples_reachable"] = reach
-    for g in ("StaleExcluded", "PressuresOverwritten", "FixStress"):
+    for g in ("FixStress",):
         if not reach[g]:
             ctx.note(f"matcher KF_{g} is unreachable in the session model (bounded): it matches nothing")
     res = tlc_wait(cover, 1800)
